@@ -21,8 +21,8 @@ def extra(res, facts, entries, protos):
 def run(tier):
     return _proto.run_rules(
         "C08", LEVEL, RULES,
-        {"C08.R1": 8, "C08.R3": 4, "C08.R4": 16, "C08.R5": 11 + 8, "C08.R8": 20, "C08.R9": 30},
+        {"C08.R1": 8, "C08.R3": 4, "C08.R4": 16, "C08.R5": 11 + 8, "C08.R8": 2, "C08.R9": 30},
         "the skeleton of the 16 core entry points (PAE component lists, nonce derivations, payload layout, primitives named by type) and the constants of the key split are compared with tables transcribed from Version1-4.md / Common.md; "
         "format_token is evaluated over {no footer, empty footer, non-empty footer}; PAE::le64 / parse are evaluated over a symbolic u64 / piece list",
         ["byte-exactness of the primitives (ring, aes, chacha20, blake2, hmac, sha2, ed25519-dalek, p384)", "the transcription rules/protocol.py SPEC_* of the specification"],
-        extra, "byte-exactness of the primitives and interoperability runs against an independent implementation (execution)", alias=ALIAS)
+        extra, "byte-exactness of the primitives and interoperability runs against an independent implementation (execution)", alias=ALIAS, sem_rules={"C08.S1": 8, "C08.S2": 8, "C08.S3": 8})
